@@ -175,6 +175,7 @@ class Session:
         self.with_raw = with_raw
         self.with_xf = with_xf
         self.xf_scale = 1 if exact else 10000      # integer sub-group: the linear part is integral
+        self.xf_cms = []                           # open transform contexts
         self.probe_hook = None
         self.scale_hook = None
         self.ext_hook = None
@@ -453,6 +454,18 @@ class Session:
                 return t.save_state()
             if k == "restore":
                 return t.restore_state()
+            if k == "save_named":
+                return t.save_state(d["name"])
+            if k in ("ctx_enter", "ctx_named_enter"):
+                # `with g.current_transform():` / `with g.named_transform(name):` opened here, closed by a later xf_ctx_exit
+                cm = g.current_transform() if k == "ctx_enter" else g.named_transform(d["name"])
+                cm.__enter__()
+                self.xf_cms.append(cm)
+                return None
+            if k == "ctx_exit":
+                if self.xf_cms:
+                    self.xf_cms.pop().__exit__(None, None, None)
+                return None
         raise KeyError("unknown call %r" % c)
 
     def _auto_request(self, d):
@@ -549,7 +562,10 @@ class Session:
 
     def observe_xf(self):
         """The map in force, through the public apply_transform(): linear part scaled 1e4, translation in trace units."""
-        t = self.g.transform
+        # on a COPY of the transformer: observing must not touch anything the real one remembers between calls (added after
+        # seed C04g, a memo of the last transformed point that the recorder's own probing kept refreshing)
+        import copy as _copy
+        t = _copy.deepcopy(self.g.transform)
         o = t.apply_transform((0.0, 0.0, 0.0))
         cols = [t.apply_transform(e) for e in ((1.0, 0.0, 0.0), (0.0, 1.0, 0.0), (0.0, 0.0, 1.0))]
         a = [[int(round((cols[j][i] - o[i]) * self.xf_scale)) for j in range(3)] for i in range(3)]
